@@ -3391,10 +3391,10 @@ coap_handle_response_send_block(coap_session_t *session, coap_pdu_t *sent,
         }
       }
       track_echo(session, rcvd);
-      if (lg_xmit->last_block == (int)block.num &&
+      if (lg_xmit->last_block >= (int)block.num &&
           lg_xmit->option != COAP_OPTION_Q_BLOCK1) {
         /*
-         * Duplicate Block1 ACK
+         * Duplicate Block1 ACK (possibly for a block before the last one)
          *
          * RFCs not clear here, but on a lossy connection, there could
          * be multiple Block1 ACKs, causing the client to retransmit the
